@@ -36,6 +36,10 @@ pub struct Case {
   pub direct_violations: Vec<String>,
 }
 
+thread_local! {
+  pub static LAST_PANIC_LOCATION: std::cell::RefCell<String> = std::cell::RefCell::new(String::new());
+}
+
 pub fn hash_sx(s: &Sx) -> u64 {
   let mut h = std::collections::hash_map::DefaultHasher::new();
   s.hash(&mut h);
@@ -56,16 +60,44 @@ where
   let threads = cfg.threads.max(1);
   let chunk = (ks.len() + threads - 1) / threads.max(1);
   let mut results: Vec<Vec<(u64, Case)>> = vec![];
+  // watchdog: a case that does not finish is a finding of its own (a build that never terminates);
+  // the process reports it and exits with status 3
+  let nparts = ks.chunks(chunk.max(1)).count();
+  let current: std::sync::Arc<Vec<std::sync::atomic::AtomicU64>> =
+    std::sync::Arc::new((0..nparts).map(|_| std::sync::atomic::AtomicU64::new(u64::MAX)).collect());
+  let limit: u64 = std::env::var("DGVERIF_CASE_TIMEOUT").ok().and_then(|s| s.parse().ok()).unwrap_or(180);
+  {
+    let current = current.clone();
+    let out_dir = cfg.out_dir.clone();
+    std::thread::spawn(move || {
+      let mut last: Vec<(u64, std::time::Instant)> = (0..current.len()).map(|_| (u64::MAX, std::time::Instant::now())).collect();
+      loop {
+        std::thread::sleep(std::time::Duration::from_millis(500));
+        for (i, c) in current.iter().enumerate() {
+          let k = c.load(std::sync::atomic::Ordering::Relaxed);
+          if k != last[i].0 {
+            last[i] = (k, std::time::Instant::now());
+          } else if k != u64::MAX && k != u64::MAX - 1 && last[i].1.elapsed().as_secs() >= limit {
+            let _ = std::fs::write(out_dir.join("hang.json"), serde_json::json!({"k": k, "seconds": limit}).to_string());
+            eprintln!("HANG k={} (no result after {} s)", k, limit);
+            std::process::exit(3);
+          }
+        }
+      }
+    });
+  }
   std::thread::scope(|sc| {
     let mut hs = vec![];
-    for part in ks.chunks(chunk.max(1)) {
+    for (pi, part) in ks.chunks(chunk.max(1)).enumerate() {
       let gen_case = &gen_case;
       let seed = cfg.seed;
+      let current = current.clone();
       hs.push(sc.spawn(move || {
-        part
+        let out: Vec<(u64, Case)> = part
           .iter()
           .map(|k| {
             let k = *k;
+            current[pi].store(k, std::sync::atomic::Ordering::Relaxed);
             let r = std::panic::catch_unwind(std::panic::AssertUnwindSafe(|| gen_case(seed, k)));
             match r {
               Ok(c) => (k, c),
@@ -77,6 +109,8 @@ where
                 } else {
                   "panic".to_string()
                 };
+                let loc = LAST_PANIC_LOCATION.with(|c| c.borrow().clone());
+                let msg = if loc.is_empty() { msg } else { format!("{} (at {})", msg, loc) };
                 (
                   k,
                   Case {
@@ -91,7 +125,9 @@ where
               }
             }
           })
-          .collect::<Vec<_>>()
+          .collect::<Vec<_>>();
+        current[pi].store(u64::MAX - 1, std::sync::atomic::Ordering::Relaxed);
+        out
       }));
     }
     for h in hs {
